@@ -226,9 +226,25 @@ def pruneShardGroups (d : Data) (expiration : Int) : Data :=
           { r with ShardGroups := r.ShardGroups.filter fun g =>
               Time.IsZero g.DeletedAt || !Time.After expiration g.DeletedAt || decide (g.Shards.length > 0) } } }
 
+/-! ### `Data.TruncateShardGroups` -/
+
+/-- one group under `TruncateShardGroups(t)` -/
+def truncateSG (t : Int) (g : ShardGroupInfo) : ShardGroupInfo :=
+  if !Time.Before t g.EndTime || Deleted g || (Truncated g && Time.Before g.TruncatedAt t) then g
+  else if !Time.After t g.StartTime then { g with TruncatedAt := g.StartTime }
+  else { g with TruncatedAt := t }
+
+/-- `Data.TruncateShardGroups(t)`: every group that could hold timestamps beyond `t` (the list is
+    not re-sorted) -/
+def truncateShardGroups (d : Data) (t : Int) : Data :=
+  { d with Databases := d.Databases.map fun di =>
+      { di with RetentionPolicies := di.RetentionPolicies.map fun r =>
+          { r with ShardGroups := r.ShardGroups.map (truncateSG t) } } }
+
 /-! ### retention selection (`ExpiredShardGroups`, `DeletedShardGroups`) -/
 
-/-- `RetentionPolicyInfo.ExpiredShardGroups(t)` -/
+/-- `RetentionPolicyInfo.ExpiredShardGroups(t)`: tested on `EndTime`, also for a truncated group
+    (its range `[StartTime, EndTime)` may hold points stored before the truncation) -/
 def expiredShardGroups (r : RetentionPolicyInfo) (t : Int) : List ShardGroupInfo :=
   r.ShardGroups.filter fun g =>
     !Deleted g && (r.Duration != 0 && Time.Before (Time.Add g.EndTime r.Duration) t)
